@@ -976,6 +976,74 @@ impl Node {
     }
 }
 
+/// Verification hooks (feature `verif-hooks`): a public wrapper around the crate-private `Node`,
+/// built around a `Network` whose `SwarmDriver` is driven by an external harness.
+#[cfg(feature = "verif-hooks")]
+#[allow(missing_docs, unreachable_pub)]
+pub mod verif {
+    use super::*;
+
+    #[derive(Clone)]
+    pub struct VerifNode(Node);
+
+    impl VerifNode {
+        pub fn new(
+            network: Network,
+            evm_network: EvmNetwork,
+            reward_address: RewardsAddress,
+        ) -> Self {
+            VerifNode(Node {
+                inner: Arc::new(NodeInner {
+                    events_channel: NodeEventsChannel::default(),
+                    initial_peers: vec![],
+                    network,
+                    #[cfg(feature = "open-metrics")]
+                    metrics_recorder: None,
+                    reward_address,
+                    evm_network,
+                }),
+            })
+        }
+        pub async fn validate_and_store_record(
+            &self,
+            record: libp2p::kad::Record,
+        ) -> std::result::Result<(), String> {
+            self.0
+                .validate_and_store_record(record)
+                .await
+                .map_err(|e| format!("{e:?}"))
+        }
+        pub async fn store_replicated_in_record(
+            &self,
+            record: libp2p::kad::Record,
+        ) -> std::result::Result<(), String> {
+            self.0
+                .store_replicated_in_record(record)
+                .await
+                .map_err(|e| format!("{e:?}"))
+        }
+        pub fn handle_network_event(&self, event: NetworkEvent) {
+            let peers = Arc::new(AtomicUsize::new(0));
+            self.0.handle_network_event(event, &peers)
+        }
+        pub async fn handle_query(
+            network: &Network,
+            query: Query,
+            payment_address: RewardsAddress,
+        ) -> Response {
+            Node::handle_query(network, query, payment_address).await
+        }
+        pub fn calculate_get_closest_peers(
+            peer_addrs: Vec<(PeerId, Vec<Multiaddr>)>,
+            target: NetworkAddress,
+            num_of_peers: Option<usize>,
+            range: Option<[u8; 32]>,
+        ) -> Vec<(NetworkAddress, Vec<Multiaddr>)> {
+            Node::calculate_get_closest_peers(peer_addrs, target, num_of_peers, range)
+        }
+    }
+}
+
 async fn scoring_peer(
     network: Network,
     peer_id: PeerId,
